@@ -153,6 +153,10 @@ def strategy(tier):
     return _scn()
 
 
+def rel_in_line(f, target, line):
+    return (f[len(target) + 1:] if target else f) in line
+
+
 def _mismatch_lines(out):
     return [l for l in out.split("\n") if l.startswith("ERROR: hash mismatch")]
 
@@ -265,6 +269,15 @@ def run_case(scn, ctx):
                 w.put(f, data + b"\x00")
                 res = w.verify(target)
                 check_outputs("verify", res, target, {f}, set(), set(), ctx)
+                # the single-file form of verify: the altered file fails, any other recorded file passes
+                res = w.verify(target, flags=["-sf", w.abs(f)])
+                require(res.exc is None and res.exit_code == 11, "verify-sf-exit", "verify -sf on the altered %r: %s" % (f, res.brief()), res)
+                require(any(rel_in_line(f, target, l) for l in _mismatch_lines(res.output)), "verify-sf-names-altered", "verify -sf does not name the altered %r:\n%s" % (f, res.output[-300:]), res)
+                others = [g for g in sealed_files if g != f]
+                if others:
+                    g = others[len(f) % len(others)]
+                    res = w.verify(target, flags=["-sf", w.abs(g)])
+                    require(res.exc is None and res.exit_code == 0, "verify-sf-exit", "verify -sf on the unaltered %r (while %r is altered): %s" % (g, f, res.brief()), res)
                 w.put(f, data)
                 ctx.event("per_file_enum")
             res = w.verify(target)
